@@ -339,6 +339,10 @@ class Writer(object):
             # X.690 8.6.4: only the last segment may hold a number of bits that is not a multiple of 8
             while sizes and sizes[-1] == 0:
                 sizes = sizes[:-1]
+        if isbits and not sizes:
+            # a constructed BIT STRING without any segment is left out: whether it denotes the empty bit
+            # string is a matter of reading 8.6.4, and the library refuses it
+            sizes = [0]
         out = []
         pos = 0
         for i, sz in enumerate(sizes):
